@@ -415,6 +415,39 @@ func RunC15(r *core.Run) {
 		w.Nontrivial(core.HashBytes(a))
 		w.Inc("long_lists")
 	})
+	// tel: URIs keep their number in the user component: case-sensitive like every user part, while
+	// the scheme and the parameter names/values are not
+	telNums := []string{"+1-800-abcd", "*21#B", "123a", "+49(30)Abc", "911x", "+1-212-555-0101-Z"}
+	telPars := []string{"", ";ext=5", ";phone-context=Example.com", ";isub=AbC;ext=12"}
+	r.Stage("tel-user-case", r.Pick(40000, 2000000), func(w *core.Worker, idx int64) {
+		rr := core.NewRand(r.Seed, 0xC15, 9, uint64(idx))
+		num := telNums[rr.Intn(len(telNums))]
+		par := telPars[rr.Intn(len(telPars))]
+		a := []byte("tel:" + num + par)
+		b := []byte(gen.RandCase(rr, "tel") + ":" + num + gen.RandCase(rr, par))
+		c := []byte("tel:" + swapOneLetter(num) + par)
+		f := sipsp.URICmpFlags(rr.Intn(64)) &^ sipsp.URICmpSkipUser
+		same, diff := rawCmp(a, b, f), rawCmp(a, c, f)
+		w.Eval(2)
+		if same.pan != "" || diff.pan != "" || same.err != 0 || diff.err != 0 {
+			return
+		}
+		if !same.eq {
+			w.Fail("tel-recased", func() *core.Violation {
+				return core.V(fmt.Sprintf("%q and %q (scheme / parameters re-cased only) compare different with flags %#x", a, b, f), a, nil)
+			})
+			return
+		}
+		if diff.eq {
+			w.Fail("user-case", func() *core.Violation {
+				return core.V(fmt.Sprintf("%q and %q (the number, i.e. the user part, differs in letter case) compare equal with flags %#x", a, c, f), a, nil)
+			})
+			return
+		}
+		w.Nontrivial(core.HashBytes(a) ^ core.HashBytes(b)<<1 ^ uint64(f)<<56)
+		w.Inc("tel_pairs_judged")
+	})
+	r.Require("C15 tel: pairs judged", r.Counter("tel_pairs_judged"), 1000)
 	r.Require("C15 equal pairs", r.Counter("equal_pairs"), 1000)
 	r.Require("C15 different pairs", r.Counter("different_pairs"), 1000)
 }
